@@ -484,7 +484,8 @@ class Isotropic(_Elastic):
         return c, s
 
     def Walpole_Decomposition(self) -> tuple[_types.FloatArray, _types.FloatArray]:
-        c1 = self.get_bulk()
+        # Ei are (6,6) tensors: c1 is the 3D bulk modulus (get_bulk() depends on self.dim)
+        c1 = self.get_lambda() + 2 * self.get_mu() / 3
         c2 = self.get_mu()
 
         Ivect = np.array([1, 1, 1, 0, 0, 0])
